@@ -114,6 +114,8 @@ async fn one_run(run: u64, seed: u64, big: bool) -> Value {
     let mut worker_file: BTreeMap<u32, PathBuf> = BTreeMap::new();
     let mut events: Vec<Value> = Vec::new();
     let mut guard = 0;
+    let hard = run % 5 == 1 || run % 5 == 4;
+    let mut hard_stopped = false;
     loop {
         guard += 1;
         if guard > 2000 {
@@ -132,6 +134,10 @@ async fn one_run(run: u64, seed: u64, big: bool) -> Value {
             }
         }
         if cands.is_empty() {
+            break;
+        }
+        if hard && guard > 3 && rng.below(12) == 0 {
+            hard_stopped = true;
             break;
         }
         let k = cands[rng.below(cands.len())];
@@ -194,7 +200,31 @@ async fn one_run(run: u64, seed: u64, big: bool) -> Value {
             // task ends: flush, report
             let s = execs[k].sender.take().unwrap();
             if execs[k].end != "crashed" {
-                let _ = s.flush().await;
+                // another execution running on the same worker may write at the very moment this one ends: its chunk is
+                // queued right behind the flush request
+                let other = (0..execs.len()).find(|o| {
+                    *o != k && execs[*o].worker == worker && execs[*o].started && !execs[*o].done && execs[*o].sender.is_some()
+                        && (0..2).any(|c| !execs[*o].closed[c] && execs[*o].next[c] < execs[*o].chunks[c].len())
+                });
+                match other {
+                    Some(o) if rng.below(3) != 0 => {
+                        let c = (0..2).find(|c| !execs[o].closed[*c] && execs[o].next[*c] < execs[o].chunks[*c].len()).unwrap();
+                        let (name, size) = execs[o].chunks[c][execs[o].next[c]].clone();
+                        let s2 = execs[o].sender.as_ref().unwrap().clone();
+                        let (_, _) = tokio::join!(s.flush(), s2.send_data(c as u32, chunk_bytes(&name, size)));
+                        execs[o].next[c] += 1;
+                        events.push(json!(["write", execs[o].task, execs[o].inst, c, name]));
+                    }
+                    _ => {
+                        let _ = s.flush().await;
+                    }
+                }
+                if hard {
+                    // the length at the moment the end is reported, before anything else is let through
+                    if let Some(f) = worker_file.get(&worker) {
+                        last_flush_len.insert(f.clone(), std::fs::metadata(f).map(|m| m.len()).unwrap_or(0));
+                    }
+                }
                 pump().await;
                 if let Some(f) = worker_file.get(&worker) {
                     last_flush_len.insert(f.clone(), std::fs::metadata(f).map(|m| m.len()).unwrap_or(0));
@@ -220,11 +250,23 @@ async fn one_run(run: u64, seed: u64, big: bool) -> Value {
         }
         pump().await;
     }
-    // let all writers finish, then apply the crash cuts
-    for e in execs.iter_mut() {
-        e.sender = None;
+    // let all writers finish, then apply the crash cuts; in a hard stop every worker is killed at this very moment instead:
+    // the directory is read as it is while the streamers are alive, and what was running counts as crashed
+    if hard {
+        for e in execs.iter_mut() {
+            if e.started && !e.done {
+                e.done = true;
+                e.end = "crashed";
+            }
+        }
+        events.push(json!(["hardstop", hard_stopped]));
+    } else {
+        for e in execs.iter_mut() {
+            e.sender = None;
+        }
+        drop(streamers);
+        streamers = BTreeMap::new();
     }
-    drop(streamers);
     pump().await;
     for (_, (f, cut)) in crashed_workers.iter() {
         if let Ok(file) = std::fs::OpenOptions::new().write(true).open(f) {
@@ -249,6 +291,10 @@ async fn one_run(run: u64, seed: u64, big: bool) -> Value {
         }
         Ok(out)
     }));
+    for e in execs.iter_mut() {
+        e.sender = None;
+    }
+    drop(streamers);
     let (read, open_err, pan) = match read {
         Ok(Ok(r)) => (r, String::new(), 0),
         Ok(Err(e)) => (vec![], e, 0),
